@@ -693,12 +693,14 @@ func init() {
 		rr := vc.define("encrune", "Int", ite(or(sx("<", r, "0"), sx(">", r, "1114111"), and(sx("<=", "55296", r), sx("<", r, "57344"))), "65533", r))
 		nh := vc.get(st, "E$uint8")
 		at := func(k int) Term { return vc.sel(nh, adr(p.C[0], itoa(int64(k)))) }
-		cont := func(shift string) Term { return sx("+", "128", sx("mod", sx("div", rr, shift), "64")) }
+		// stated with the spec symbol jsonUtf8Byte (spec/json.smt2: RFC 3629, uninterpreted with its
+		// definition as an axiom) so that comparing with a contract needs equality of code points only
+		ub := func(k int) Term { return sx("jsonUtf8Byte", rr, itoa(int64(k))) }
 		vc.assume(and(
-			implies(eq(n, "1"), eq(at(0), rr)),
-			implies(eq(n, "2"), and(eq(at(0), sx("+", "192", sx("div", rr, "64"))), eq(at(1), cont("1")))),
-			implies(eq(n, "3"), and(eq(at(0), sx("+", "224", sx("div", rr, "4096"))), eq(at(1), cont("64")), eq(at(2), cont("1")))),
-			implies(eq(n, "4"), and(eq(at(0), sx("+", "240", sx("div", rr, "262144"))), eq(at(1), cont("4096")), eq(at(2), cont("64")), eq(at(3), cont("1"))))))
+			eq(at(0), ub(0)),
+			implies(sx(">=", n, "2"), eq(at(1), ub(1))),
+			implies(sx(">=", n, "3"), eq(at(2), ub(2))),
+			implies(eq(n, "4"), eq(at(3), ub(3)))))
 		return Val{T: x.Type(), C: []Term{n}}
 	}
 	m := newModset()
